@@ -285,7 +285,7 @@ func CheckedAs[T fixed.Dx, TO xmath.Numeric](f Int[T]) (TO, error) {
 		f64, _ := new(big.Float).SetPrec(128).Quo(f.data.AsBigFloat(),
 			new(big.Float).SetPrec(128).SetInt(big.NewInt(t.Multiplier()))).Float64()
 		n = TO(f64)
-		if strconv.FormatFloat(float64(n), 'g', -1, reflect.TypeOf(n).Bits()) != f.String() {
+		if strconv.FormatFloat(float64(n), 'f', -1, reflect.TypeOf(n).Bits()) != f.String() {
 			return 0, fixed.ErrDoesNotFitInRequestedType
 		}
 	default:
